@@ -32,3 +32,99 @@ Fixpoint gindex (x : string) (l : list string) (i : nat) : option nat :=
   | [] => None
   | y :: r => if String.eqb x y then Some i else gindex x r (S i)
   end.
+
+(* ---------- round 5: plumbing of allowUsers, Run defaults, key selection, response reader ---------- *)
+From FRP Require Export Model.VisitorPath.
+
+Definition gopt_is {A} (o : option A) : bool := match o with Some _ => true | None => false end.
+
+(* (1) a stage hands the allowed-users value on unchanged iff its right-hand side is the plain field of its source *)
+Definition gplumb_stage (rhs : string) : option plumb_stage :=
+  if String.eqb rhs "v.AllowUsers" || String.eqb rhs "c.AllowUsers" || String.eqb rhs "m.AllowUsers"
+  then Some (fun l => l) else None.
+
+Fixpoint gplumb_interp (t : list (string * string * string)) : option (list plumb_stage) :=
+  match t with
+  | [] => Some []
+  | (_, _, rhs) :: r =>
+      match gplumb_stage rhs, gplumb_interp r with
+      | Some f, Some fs => Some (f :: fs)
+      | _, _ => None
+      end
+  end.
+
+(* (2) Run of a secret proxy type on the server:
+       (type, initial value of allowUsers, [condition; value assigned under it], arguments of Listen / ListenClient,
+        calls deferred by Run, number of assignments to allowUsers) *)
+Definition grun := (string * list string * list string * list string * list string * nat)%type.
+
+(* what Run registers, as a function of the configured list, the owner's user and the configured key;
+   None when Run has any other shape (in particular when it defers a call: a failing Run holds nothing to tear down) *)
+Definition grun_interp (r : grun) (cfg_allow : list bytes) (owner_user sk : bytes) : option (bytes * list bytes) :=
+  let '(_, inits, ifs, largs, defers, total) := r in
+  match inits, ifs, largs, defers with
+  | [i], [c; v], [_; k; a], [] =>
+      if String.eqb i "pxy.cfg.AllowUsers" && String.eqb c "len(allowUsers) == 0" &&
+         String.eqb v "[]string{pxy.GetUserInfo().User}" && String.eqb k "pxy.cfg.Secretkey" &&
+         String.eqb a "allowUsers" && Nat.eqb total 2
+      then Some (sk, match cfg_allow with [] => [owner_user] | _ => cfg_allow end)
+      else None
+  | _, _, _, _ => None
+  end.
+
+(* (3) key classes of source expressions *)
+Definition gkey_class (text : string) : keyclass :=
+  if String.eqb text "[]byte(l.sk)" || String.eqb text "[]byte(sv.cfg.SecretKey)" || String.eqb text "[]byte(pxy.cfg.Secretkey)"
+  then KSecret
+  else if String.eqb text "[]byte(pxy.clientCfg.Auth.Token)" || String.eqb text "[]byte(serverCfg.Auth.Token)"
+  then KToken else KNoKey.
+
+(* a wrapper site of the expected shape: encryption first, compression on top; its key expression *)
+Definition gsite_key (s : gsite) : option string :=
+  match s with
+  | [(w1, _, k); (w2, _, _)] => if String.eqb w1 "enc" && String.eqb w2 "comp" then Some k else None
+  | _ => None
+  end.
+
+(* the key an accepted tunnel stream / a work connection is served with: HandleTCPWorkConnection's third argument
+   (its parameter [encKey] is what the wrapper site of HandleTCPWorkConnection uses) *)
+Definition gcall_key (params : list string) (handle : gsite) (row : list string) : option string :=
+  match gsite_key handle, gindex "encKey" params 0, row with
+  | Some hk, Some 2%nat, [callee; _; _; k] =>
+      if String.eqb hk "encKey" && String.eqb callee "pxy.HandleTCPWorkConnection" then Some k else None
+  | _, _, _ => None
+  end.
+
+Record gtables := {
+  gt_newconn : gsite; gt_vstcp : gsite; gt_vsudp : gsite; gt_vxtcp : gsite;
+  gt_handle_params : list string; gt_handle : gsite; gt_inwork : list (list string);
+  gt_sudp_owner : gsite; gt_server_work : gsite; gt_xtcp_streams : list (list string)
+}.
+
+Definition gclass (o : option string) : keyclass := match o with Some t => gkey_class t | None => KNoKey end.
+
+(* key class at the two ends of a leg, read off the tables (first component: the end nearer to the visitor) *)
+Definition gleg_ends (t : gtables) (l : leg) : list (keyclass * keyclass) :=
+  match l with
+  | LegVisitor KStcp => [(gclass (gsite_key (gt_vstcp t)), gclass (gsite_key (gt_newconn t)))]
+  | LegVisitor KSudp => [(gclass (gsite_key (gt_vsudp t)), gclass (gsite_key (gt_newconn t)))]
+  | LegVisitor KXtcp => []
+  | LegWork KStcp =>
+      map (fun row => (gclass (gsite_key (gt_server_work t)), gclass (gcall_key (gt_handle_params t) (gt_handle t) (tl row))))
+          (map (fun r => "InWorkConn"%string :: r) (gt_inwork t))
+  | LegWork KSudp => [(gclass (gsite_key (gt_server_work t)), gclass (gsite_key (gt_sudp_owner t)))]
+  | LegWork KXtcp => []
+  | LegTunnel =>
+      (* one entry per listen function that serves accepted tunnel streams *)
+      map (fun row => (gclass (gsite_key (gt_vxtcp t)), gclass (gcall_key (gt_handle_params t) (gt_handle t) (tl row))))
+          (gt_xtcp_streams t)
+  end.
+
+Definition gall_legs : list leg := [LegVisitor KStcp; LegVisitor KSudp; LegWork KStcp; LegWork KSudp; LegTunnel].
+
+(* (4) the visitor builds its stack on the very reader it decoded the response frame from *)
+Definition gresp_reader_ok (t : list (string * string)) (v : string) : bool :=
+  match gassoc v t, gassoc (v ++ ":stack-base")%string t with
+  | Some r, Some b => String.eqb r b
+  | _, _ => false
+  end.
